@@ -335,7 +335,7 @@ Definition last_is_recvall (l : list uact) : bool :=
   match rev l with URecvAll :: _ => true | _ => false end.
 
 Definition prop_ok (c : case) : bool :=
-  if is_atomic (capi c) then ae_prop None (caops c) else
+  if is_atomic (capi c) then ae_prop None [] (caops c) else
   let a := capi c in
   let fe := is_foreach a in
   let w := eff_workers c in
